@@ -163,9 +163,15 @@ def correspond(ctx):
             ps = {'x': matrix(w['x'], (pr.n, 1), 'd'), 's': matrix(w['s'], (pr.N, 1), 'd')}
             dsd = {'y': matrix(w['y'], (pr.p, 1), 'd'), 'z': matrix(w['z'], (pr.N, 1), 'd')}
             variants.append(('start-points', lambda: solve(solvers.conelp, c, G, h, dims, A, b, primalstart=ps, dualstart=dsd), 1.0))
+            # one of the two only: the other half is computed by the solver (least-squares start, shifted into the cone)
+            variants.append(('primalstart-only', lambda: solve(solvers.conelp, c, G, h, dims, A, b, primalstart=ps), 1.0))
+            variants.append(('dualstart-only', lambda: solve(solvers.conelp, c, G, h, dims, A, b, dualstart=dsd), 1.0))
         else:
             iv = {'x': matrix(w['x'], (pr.n, 1), 'd'), 's': matrix(w['s'], (pr.N, 1), 'd'), 'y': matrix(w['y'], (pr.p, 1), 'd'), 'z': matrix(w['z'], (pr.N, 1), 'd')}
             variants.append(('initvals', lambda: solve(solvers.coneqp, P, c, G, h, dims, A, b, initvals=iv), 1.0))
+            for keys in (('x', 's'), ('y', 'z'), tuple(rng.sample(['x', 's', 'y', 'z'], rng.randint(1, 3)))):
+                ivk = {k: iv[k] for k in keys}
+                variants.append(('initvals-' + ''.join(sorted(keys)), lambda ivk=ivk: solve(solvers.coneqp, P, c, G, h, dims, A, b, initvals=ivk), 1.0))
         # wrappers
         if not hasQS:
             if qp: variants.append(('qp-wrapper', lambda: solve(solvers.qp, P, c, G, h, A, b), 1.0))
